@@ -25,7 +25,7 @@ ALL_CB = ["on_open", "on_message", "on_data", "on_ping", "on_pong", "on_error", 
 
 def bounds(tier):
     if tier == "quick":
-        return ("29 endings x {no ping thread, ping thread} x {plain, TLS}; preemption bound 1 at synchronisation points for ping-thread scenarios; closer thread: "
+        return ("32 endings x {no ping thread, ping thread} x {plain, TLS}; preemption bound 1 at synchronisation points for ping-thread scenarios; closer thread: "
                 "1 preemption at every synchronisation point (all scenarios) and at every executed line (one scenario)")
     return ("same scenarios; preemption bound 2 at synchronisation points; closer thread: 1 preemption at every executed library line for every closer scenario, 2 at synchronisation points")
 
@@ -52,6 +52,16 @@ def endings():
     # the peer never answers a ping but keeps talking (a message every 0.5 s) and would close cleanly at t=30: the ping timeout must end the run long before
     E.append(("chatty-silence-ping-timeout", dict(tail=[(3.0 + 0.5 * i, "data", R.encode(R.TEXT, b"c")) for i in range(54)] + [(30.0, "data", R.encode(R.CLOSE, b"\x03\xe8"))],
                                                   silent_pings=True, needs_ping=True), dict(close=(None, None), err=True)))
+    # UTF-8 validation switched off by the application and a close reason that is not UTF-8: how the reason is presented is not specified
+    # ("*"), but the run must end like any other server close
+    E.append(("server-close-undecodable-reason-novalidation", dict(tail=[(3.0, "data", R.encode(R.CLOSE, b"\x03\xe8\xff\xfe"))], skip_utf8=True),
+              dict(close=(1000, "*"), err=False)))
+    E.append(("server-close-ok-reason-novalidation", dict(tail=[(3.0, "data", R.encode(R.CLOSE, b"\x03\xe8fine"))], skip_utf8=True),
+              dict(close=(1000, "fine"), err=False)))
+    # reconnect configured: the first connection is lost (error reported), the second attempt succeeds and the server closes it cleanly:
+    # one on_close at the very end with the server's code, and the return value still says that an error was reported during the run
+    E.append(("lost-reconnected-then-server-close", dict(tail=[(3.0, "data", R.encode(R.CLOSE, b"\x03\xe9bye"))], lost_first=True),
+              dict(close=(1001, "bye"), err=True)))
     # a clean first run followed by a second run whose end depends on the keepalive machinery working again
     E.append(("clean-then-silent-second-run", dict(tail=[(3.0, "data", R.encode(R.CLOSE, b"\x03\xe8"))], needs_ping=True, second="silent"),
               dict(close=(1000, ""), err=False, second=dict(close=(None, None), err=True))))
@@ -69,6 +79,11 @@ def endings():
 
 
 ENDINGS = endings()
+
+
+def trace_variant(desc, tier):
+    """With trace logging enabled: every ending (not the closer-thread schedules)."""
+    return desc["kind"] == "ending"
 
 
 def tasks(tier, seed):
@@ -143,6 +158,11 @@ def make_spec(desc):
             def mk(peer=peer, script=script, on_ping=on_ping):
                 return tnet.ServerPeer(hs=peer.get("hs", "ok"), script=script, on_ping=on_ping, on_close=peer.get("on_close", "reply+eof"), close_latency=0.25)
             spec["attempts"] = [mk]
+            if peer.get("skip_utf8"):
+                spec["run_kwargs"] = dict(run_kwargs, skip_utf8_validation=True)
+            if peer.get("lost_first"):
+                spec["attempts"] = [lambda: tnet.ServerPeer(script=[(1.0, "data", R.encode(R.TEXT, b"m0")), (2.0, "eof", b"")], on_ping=("all", 0.25)), mk]
+                spec["run_kwargs"] = dict(run_kwargs, reconnect=1)
         if peer.get("close_from"):
             def act(app, run):
                 k = sum(1 for e in run.trace if e[1] == "--second-run--")
@@ -230,6 +250,8 @@ def check_run(run, res, spec):
             raise V("callback-after-return", "%s: %s called after run_forever returned" % (which, after[0][1]))
         if exp.get("closer") and k == 0 and closes[0][2] in ((None, None), (1000, "")):
             pass  # the loop thread may read the server's answer to the closer's close frame before it notices the close(): either report is acceptable
+        elif e2["close"][1] == "*" and len(closes[0][2]) == 2 and closes[0][2][0] == e2["close"][0]:
+            pass  # the code is right; the presentation of an undecodable reason is not specified
         elif closes[0][2] != tuple(e2["close"]):
             raise V("on-close-args", "%s: on_close%r, expected %r" % (which, closes[0][2], tuple(e2["close"])), got_none=closes[0][2] == (None, None))
         errs = [e for e in cbs if e[1] == "on_error"]
